@@ -200,6 +200,73 @@ theorem derivedPos_agrees (iv : BS.Builder.Name → Bool) (c : Choices) (ds : Li
   have := posAgree_of_distinct (wtoksL iv c [] 0 ds) (distinct_wtoksL iv c ds [] 0) (wtoksL iv c [] 0 ds) [] rfl
   exact this
 
+/-! ### at the derived offsets the text has a `<` -/
+
+theorem offsetOf_some (p : Path) : ∀ (ts : List WTok) (o o' : Nat), offsetOf p o ts = some o' →
+    ∃ a t b, ts = a ++ t :: b ∧ isOpenTok t = true ∧ o' = o + (textOf a).length := by
+  intro ts
+  induction ts with
+  | nil => intro o o' h; simp [offsetOf] at h
+  | cons x ts ih =>
+    intro o o' h
+    simp only [offsetOf] at h
+    split at h
+    · rename_i hc
+      simp only [Option.some.injEq] at h
+      simp only [Bool.and_eq_true] at hc
+      exact ⟨[], x, ts, rfl, hc.1, by simp [textOf, h]⟩
+    · obtain ⟨a, t, b, hts, ho, ho'⟩ := ih _ _ h
+      exact ⟨x :: a, t, b, by simp [hts], ho, by simp only [textOf_cons, List.length_append]; omega⟩
+
+mutual
+theorem open_head_wtoks (iv : BS.Builder.Name → Bool) (c : Choices) : ∀ (d : WDoc) (p : Path), ∀ t ∈ wtoks iv c p d,
+    isOpenTok t = true → t.text.head? = some 60
+  | .text s, p, t, ht, ho => by
+    simp only [wtoks] at ht
+    rw [charToks_noOpen _ s 0 [] t ht] at ho; cases ho
+  | .special k s, p, t, ht, ho => by
+    simp only [wtoks, List.mem_singleton] at ht
+    subst ht
+    rw [specialWTok_noOpen] at ho; cases ho
+  | .elem n a ks, p, t, ht, ho => by
+    have hopen : ∀ sl, (openTok p n a sl).text.head? = some 60 := fun sl => by simp [openTok, openText]
+    simp only [wtoks] at ht
+    split at ht
+    · split at ht
+      · simp only [List.mem_singleton] at ht; subst ht; exact hopen false
+      · simp only [List.mem_singleton] at ht; subst ht; exact hopen true
+      · simp only [List.mem_cons, List.not_mem_nil, or_false] at ht
+        rcases ht with rfl | rfl
+        · exact hopen false
+        · cases ho
+    · simp only [List.mem_cons, List.mem_append, List.not_mem_nil, or_false] at ht
+      rcases ht with rfl | h | rfl
+      · exact hopen false
+      · exact open_head_wtoksL iv c ks p 0 t h ho
+      · cases ho
+theorem open_head_wtoksL (iv : BS.Builder.Name → Bool) (c : Choices) : ∀ (ds : List WDoc) (p : Path) (i : Nat),
+    ∀ t ∈ wtoksL iv c p i ds, isOpenTok t = true → t.text.head? = some 60
+  | [], _, _, t, ht, _ => by simp [wtoksL] at ht
+  | d :: ds, p, i, t, ht, ho => by
+    simp only [wtoksL, List.mem_append] at ht
+    rcases ht with h | h
+    · exact open_head_wtoks iv c d (i :: p) t h ho
+    · exact open_head_wtoksL iv c ds p (i + 1) t h ho
+end
+
+/-- the offset `derivedPos` uses for a path is an offset of the text at which a `<` stands -/
+theorem derived_offset_lt (iv : BS.Builder.Name → Bool) (c : Choices) (ds : List WDoc) (p : Path) (o : Nat)
+    (h : offsetOf p 0 (wtoksL iv c [] 0 ds) = some o) :
+    (writeText iv c ds)[o]? = some 60 ∧ derivedPos iv c ds p = lineCol (writeText iv c ds) o := by
+  refine ⟨?_, by simp [derivedPos, h]⟩
+  obtain ⟨a, t, b, hts, ho, ho'⟩ := offsetOf_some p _ 0 o h
+  have hhead := open_head_wtoksL iv c ds [] 0 t (by rw [hts]; simp) ho
+  simp only [writeText, hts, textOf_append, textOf_cons]
+  rw [ho', Nat.zero_add, List.getElem?_append_right (Nat.le_refl _), Nat.sub_self]
+  cases htt : t.text with
+  | nil => rw [htt] at hhead; simp at hhead
+  | cons x xs => rw [htt] at hhead; simpa using hhead
+
 /-! ### `ParamsOK` is satisfiable: a concrete inverse of `escAttr`, and ASCII lower-casing -/
 
 /-- `html.unescape` restricted to what the writer's attribute escaping produces -/
